@@ -723,6 +723,9 @@ Section Headers.
     le <- get_vp V_luma_excursion ;; ce <- get_vp V_color_diff_excursion ;;
     set_state S_luma_depth (intlog2 (le + 1)) ;;; set_state S_color_diff_depth (intlog2 (ce + 1)).
 
+  (* (11.6.1) set_coding_parameters (tied to the source by Proofs/HeadersBridge.v) *)
+  Definition m_set_coding_parameters : M unit := picture_dimensions ;;; video_depth.
+
   (* record_bitstream_finish: the bytes read since record_bitstream_start, unread bits of the last byte zero *)
   Definition recorded_bits (r0 r1 : rd) : list bool :=
     let n := (length (r_bits r0) - length (r_bits r1))%nat in
@@ -755,7 +758,7 @@ Section Headers.
     pcm <- m_read_uint fuel ;; set_state S_picture_coding_mode pcm ;;;
     assert_in_enum pcm (t_PictureCodingModes T) E_BadPictureCodingMode ;;;
     assert_level_constraint K_picture_coding_mode pcm ;;;
-    picture_dimensions ;;; video_depth ;;;
+    m_set_coding_parameters ;;;
     lh <- get_state S_luma_height ;; lw <- get_state S_luma_width ;;
     ch <- get_state S_color_diff_height ;; cw <- get_state S_color_diff_width ;;
     fw <- get_vp V_frame_width ;; fh <- get_vp V_frame_height ;;
